@@ -200,6 +200,32 @@ def c05_nonintegral(ftype, src, must_reject=False):
     return {"violates": not ok, "detail": None if ok else f"{ftype} accepted {src} and holds {stored!r}, which is written as {packed!r} ({type(packed).__name__}): neither converted to an integer nor rejected"}
 
 
+def c05_digest_bytes():
+    from flow.record import RecordDescriptor
+
+    rec = RecordDescriptor("c05/rec", [("digest", "x"), ("varint", "n")])(n=1)
+    try:
+        rec.x = (b"d41d8cd98f00b204e9800998ecf8427e", b"da39a3ee5e6b4b0d3255bfef95601890afd80709", None)
+    except TypeError:
+        return {"violates": False, "outcome": "rejected"}
+    got = (rec.x.md5, rec.x.sha1)
+    ok = got == ("d41d8cd98f00b204e9800998ecf8427e", "da39a3ee5e6b4b0d3255bfef95601890afd80709") and not _serialisable(rec)
+    return {"violates": not ok, "detail": None if ok else f"a digest given as bytes exposes md5 / sha1 as {got!r}"}
+
+
+def c05_iadd(ftype, extra):
+    from flow.record import RecordDescriptor
+
+    rec = RecordDescriptor("c05/rec", [(ftype, "x"), ("varint", "n")])(x=[1] if ftype.startswith("uint") else ["a"], n=1)
+    try:
+        rec.x += _eval(extra)
+    except Exception:
+        return {"violates": False, "outcome": "rejected"}
+    bad = [type(e).__name__ for e in rec.x if type(e).__name__ != ftype[:-2]]
+    ser = _serialisable(rec)
+    return {"violates": bool(bad or ser), "detail": f"after x += {extra} the {ftype} field holds elements of the types {[type(e).__name__ for e in rec.x]} ({ser or 'serialisable'})" if (bad or ser) else None}
+
+
 def c05_history_pair(ftype, first, second):
     from flow.record import RecordDescriptor
 
@@ -471,4 +497,4 @@ def c05_cross_types(seed, n):
     return {"violates": False, "cases": cases}
 
 
-CALLS = {"c05_history_pair": c05_history_pair, "c05_grouped_assign": c05_grouped_assign, "c05_naive_own_class": c05_naive_own_class, "c05_nonintegral": c05_nonintegral, "c05_json_writable": c05_json_writable, "c05_cross_value": c05_cross_value, "c05_assign": c05_assign, "c05_expect": c05_expect, "c05_range": c05_range, "c05_outcome": c05_outcome, "c05_cross_types": c05_cross_types, "c05_digest": c05_digest, "c05_legacy_list": c05_legacy_list, "c05_list_pair": c05_list_pair, "c05_init": c05_init, "c05_replace": c05_replace, "c05_capture": c05_capture, "c05_decode": c05_decode}
+CALLS = {"c05_digest_bytes": c05_digest_bytes, "c05_iadd": c05_iadd, "c05_history_pair": c05_history_pair, "c05_grouped_assign": c05_grouped_assign, "c05_naive_own_class": c05_naive_own_class, "c05_nonintegral": c05_nonintegral, "c05_json_writable": c05_json_writable, "c05_cross_value": c05_cross_value, "c05_assign": c05_assign, "c05_expect": c05_expect, "c05_range": c05_range, "c05_outcome": c05_outcome, "c05_cross_types": c05_cross_types, "c05_digest": c05_digest, "c05_legacy_list": c05_legacy_list, "c05_list_pair": c05_list_pair, "c05_init": c05_init, "c05_replace": c05_replace, "c05_capture": c05_capture, "c05_decode": c05_decode}
